@@ -14,9 +14,12 @@ os.environ.setdefault("TZ", "UTC")
 from hypothesis import given, settings, seed, strategies as st, HealthCheck, Phase  # noqa: E402
 import zerv  # noqa: E402
 
-zerv.find_zerv_bin = lambda: ZERV_BIN          # the wrapper resolves the name at call time
+CURRENT_BIN = [ZERV_BIN]                        # swapped for the stand-in during fault injection
+EXTRA_ENV = {}
+zerv.find_zerv_bin = lambda: CURRENT_BIN[0]     # the wrapper resolves the name at call time
 import zerv as _z                               # noqa: E402
-_z.__dict__["find_zerv_bin"] = lambda: ZERV_BIN
+_z.__dict__["find_zerv_bin"] = lambda: CURRENT_BIN[0]
+FAKE_BIN = os.path.join(ROOT, "shim", "fakezerv")
 
 ENV = {"PATH": "/usr/local/sbin:/usr/local/bin:/usr/sbin:/usr/bin:/sbin:/bin", "HOME": "/nonexistent", "LANG": "C", "TZ": "UTC",
        "GIT_CONFIG_GLOBAL": "/dev/null", "GIT_CONFIG_SYSTEM": "/dev/null", "PAGER": "cat"}
@@ -27,7 +30,7 @@ CAPTURED = []
 _real_run = subprocess.run
 def _wrapped_run(cmd, *a, **kw):
     CAPTURED.append(list(cmd))
-    kw.setdefault("env", ENV)
+    kw.setdefault("env", dict(ENV, **EXTRA_ENV))
     kw.setdefault("cwd", "/")
     return _real_run(cmd, *a, **kw)
 zerv.subprocess.run = _wrapped_run
@@ -134,6 +137,48 @@ def check_call(fname, positional, kwargs):
             STATS["samples"].append({"call": f"zerv.{fname}({', '.join(map(repr, positional))}{', ' if positional else ''}{', '.join(f'{k}={v!r}' for k, v in kwargs.items() if k != 'stdin')})", "returned": got, "argv": wrapper_argv})
     return got
 
+def check_fake(fname, positional, kwargs, mode, out):
+    """fault injection on the child process: a stand-in binary prints `out`, then exits with a
+    status or dies by a signal; the wrapper returns the stripped text iff the status is 0"""
+    fn = FUNCS[fname]
+    if COUNTING[0]:
+        STATS["evaluations"] += 1
+    fenv = {"FAKE_MODE": mode, "FAKE_OUT": out, "FAKE_ERR": "boom\n" if mode != "exit:0" else ""}
+    ref = _real_run([FAKE_BIN], stdin=subprocess.DEVNULL, capture_output=True, text=True, check=False, env=dict(ENV, **fenv), cwd="/")
+    CURRENT_BIN[0] = FAKE_BIN
+    EXTRA_ENV.update(fenv)
+    try:
+        try:
+            got, raised = fn(*positional, **kwargs), None
+        except RuntimeError as e:
+            got, raised = None, e
+        except Exception as e:
+            raise Violation(f"{fname}() raised {type(e).__name__} when the zerv process ends with {mode}: {e}")
+    finally:
+        CURRENT_BIN[0] = ZERV_BIN
+        EXTRA_ENV.clear()
+    how = f"the zerv process printed {out!r} and ended with {mode} (returncode {ref.returncode})"
+    if ref.returncode == 0:
+        if raised is not None:
+            raise Violation(f"{how}, but {fname}() raised: {str(raised)[:200]}")
+        if got != out.strip():
+            raise Violation(f"{how}, but {fname}() returned {got!r} instead of the stripped stdout {out.strip()!r}")
+    else:
+        if raised is None:
+            raise Violation(f"{how}: a failing command must raise, but {fname}() returned {got!r}")
+    label("abnormal-exit:" + ("status-0" if ref.returncode == 0 else "signal" if ref.returncode < 0 else "status-nonzero"))
+    if COUNTING[0] and ref.returncode != 0:
+        STATS["nontrivial"].add(hashlib.sha1(json.dumps([fname, mode, out]).encode()).hexdigest())
+
+def guarded_fake(fname, positional, kwargs, mode, out):
+    try:
+        return check_fake(fname, positional, kwargs, mode, out)
+    except Violation as e:
+        COUNTING[0] = False
+        FAIL["case"] = {"function": fname, "positional": list(positional), "kwargs": kwargs, "fake": {"mode": mode, "out": out}}
+        FAIL["msg"] = str(e)
+        raise
+
 def guarded(fname, positional, kwargs):
     try:
         return check_call(fname, positional, kwargs)
@@ -154,7 +199,8 @@ VALUES = {
     "source": st.sampled_from(["none", "stdin"]),
     "input_format": st.sampled_from(["auto", "semver", "pep440"]),
     "output_format": st.sampled_from(["semver", "pep440", "zerv"]),
-    "output_template": st.sampled_from(["{{ semver }}", "v{{ major }}.{{ minor }}", "{{ pep440 }}+x", "  {{ major }}  ", "{{ bumped_branch }}"]),
+    # the last value overflows zerv's stack (known finding F17 of C13): the process dies by SIGABRT, the wrapper must raise
+    "output_template": st.sampled_from(["{{ semver }}", "v{{ major }}.{{ minor }}", "{{ pep440 }}+x", "  {{ major }}  ", "{{ bumped_branch }}", "{{ " + "(" * 30000 + "major" + ")" * 30000 + " }}"]),
     "output_prefix": st.sampled_from(["v", "release-", "é"]),
     "schema": st.sampled_from(PRESETS),
     "schema_ron": st.sampled_from(['(core:[var(Major),var(Minor)],extra_core:[],build:[])', '(core:[var(Major)],extra_core:[var(PreRelease)],build:[str("x")])']),
@@ -297,6 +343,28 @@ def run_property(tier, seed_value):
         else:
             raise
 
+    # (2c) fault injection on the child process: exit statuses 0..255 and deaths by signal
+    modes = st.one_of(st.integers(0, 255).map(lambda n: f"exit:{n}"), st.sampled_from([1, 2, 3, 6, 9, 11, 13, 15]).map(lambda n: f"sig:{n}"), st.just("exit:0"))
+    @seed(seed_value + 3)
+    @settings(max_examples=60 if tier == "quick" else 1200, database=None, deadline=None, suppress_health_check=list(HealthCheck))
+    @given(st.sampled_from(sorted(FUNCS)), modes, st.sampled_from(["", "1.2.3\n", "  1.2  \n\n", "partial out", "é\n"]))
+    def abnormal(fname, mode, out):
+        pos = ["1.2.3"] if fname in ("check", "render") else []
+        guarded_fake(fname, pos, dict(BASE[fname]), mode, out)
+    try:
+        abnormal()
+        # the signals always, whatever the draw
+        for fname in sorted(FUNCS):
+            for mode in ("sig:6", "sig:9", "sig:15", "exit:1", "exit:0"):
+                guarded_fake(fname, ["1.2.3"] if fname in ("check", "render") else [], dict(BASE[fname]), mode, "1.2.3\n")
+    except Violation:
+        violations.append(dict(FAIL)); COUNTING[0] = True
+    except Exception:
+        if FAIL["case"]:
+            violations.append(dict(FAIL)); COUNTING[0] = True; FAIL["case"] = None
+        else:
+            raise
+
     # (3) every long option of the clap definitions is reachable from a keyword (or a documented exception)
     EXC = {"help", "llm-help"}
     EXC_PER = {"version": {"verbose"}, "render": {"verbose"}, "check": set(), "flow": set()}
@@ -350,6 +418,8 @@ def main():
                 if "missing_option" in c or "unknown_flag" in c:
                     v = [x for x in run_property("quick", seed_value) if x["case"] == c]
                     if v: raise Violation(v[0]["msg"])
+                elif "fake" in c:
+                    check_fake(c["function"], c["positional"], c["kwargs"], c["fake"]["mode"], c["fake"]["out"])
                 else:
                     check_call(c["function"], c["positional"], c["kwargs"])
                 print(f"replay {replay}: property holds on this case"); return 0
@@ -365,7 +435,10 @@ def main():
                     c = json.load(open(os.path.join(rdir, f)))["case"]
                     regress += 1
                     try:
-                        check_call(c["function"], c["positional"], c["kwargs"])
+                        if "fake" in c:
+                            check_fake(c["function"], c["positional"], c["kwargs"], c["fake"]["mode"], c["fake"]["out"])
+                        else:
+                            check_call(c["function"], c["positional"], c["kwargs"])
                     except Violation as e:
                         print(f"VIOLATION property=C18 replay={os.path.join(rdir, f)}\n  {e}")
                         violations.append({"case": c, "msg": str(e), "path": os.path.join(rdir, f)})
@@ -382,7 +455,7 @@ def main():
             "coverage": {
                 "evaluations": STATS["evaluations"] + regress,
                 "distinct_nontrivial": len(STATS["nontrivial"]),
-                "rule": "cases = calls zerv.version/flow/check/render(**kwargs): every keyword individually with values from a per-keyword strategy (finite: each keyword of the four functions) and Hypothesis-generated random subsets of keywords incl. None/False values; stateful sequences (commit / tag / dirty / clean interleaved with the same version/flow call on one repository in one Python process); plus the option-parity table (every long option in `zerv <sub> --help` reachable from a keyword, every keyword's flag listed in --help). Oracle (differential): the equivalent command line built independently from the keyword names ('_'->'-', repo_path->--directory) and run against the freshly built binary: same stripped stdout, RuntimeError iff the command fails, None/False keywords leave the executed argv unchanged. Non-trivial = call with >= 1 non-None keyword beyond the base arguments whose command line succeeds; distinct = distinct (function, arguments).",
+                "rule": "cases = calls zerv.version/flow/check/render(**kwargs): every keyword individually with values from a per-keyword strategy (finite: each keyword of the four functions) and Hypothesis-generated random subsets of keywords incl. None/False values; stateful sequences (commit / tag / dirty / clean interleaved with the same version/flow call on one repository in one Python process); fault injection on the child process (a stand-in binary that prints text and then exits with status 0..255 or dies by signal 1/2/3/6/9/11/13/15: the call returns the stripped text iff the status is 0, raises RuntimeError otherwise; one real case: a template that overflows zerv's stack); plus the option-parity table (every long option in `zerv <sub> --help` reachable from a keyword, every keyword's flag listed in --help). Oracle (differential): the equivalent command line built independently from the keyword names ('_'->'-', repo_path->--directory) and run against the freshly built binary: same stripped stdout, RuntimeError iff the command fails, None/False keywords leave the executed argv unchanged. Non-trivial = call with >= 1 non-None keyword beyond the base arguments whose command line succeeds; distinct = distinct (function, arguments).",
                 "samples": STATS["samples"][:8] or [{"note": "no sample"}],
                 "labels": STATS["labels"],
                 "keywords_covered": sum(1 for k in STATS["labels"] if k.startswith("keyword:")),
